@@ -27,6 +27,7 @@ var (
 	flagNoCtl    = flag.Bool("nocontrols", false, "skip positive controls")
 	flagDump     = flag.String("dump", "", "debug: effects | roots | reach")
 	flagGenMan   = flag.Bool("genmanifest", false, "print MANIFEST.json generated from the property table")
+	flagScan     = flag.Bool("scan", false, "development aid: load once, run every rule, print what is not discharged (no evidence, no controls)")
 )
 
 func main() {
@@ -42,6 +43,9 @@ func main() {
 	if *flagDump != "" {
 		dump(*flagDump)
 		return
+	}
+	if *flagScan {
+		os.Exit(runScan())
 	}
 	if *flagControl != "" {
 		os.Exit(runControlCLI(*flagControl))
@@ -401,4 +405,86 @@ func listAll() {
 	for _, c := range controlTable {
 		fmt.Printf("control %-28s rule=%-20s %s\n", c.ID, c.Rule, c.Why)
 	}
+}
+
+// runScan is a development aid used by tools/regress.sh: it evaluates every
+// rule once (linux/amd64 and, for width-sensitive rules, linux/386) and prints
+// each obligation that is not discharged, tagged with the properties that use
+// the rule. Known findings are printed as KNOWN. Exit 1 if anything else remains.
+func runScan() int {
+	known, err := loadKnown(filepath.Join(*flagVerif, "known_findings.json"))
+	if err != nil {
+		fmt.Println("ERROR", err)
+		return 2
+	}
+	users := map[string][]string{}
+	var ids []string
+	for id := range propertyTable {
+		ids = append(ids, id)
+	}
+	sort.Strings(ids)
+	var all []string
+	seen := map[string]bool{}
+	for _, id := range ids {
+		rules, _ := propertyTable[id].implementedRules()
+		for _, rl := range rules {
+			users[rl] = append(users[rl], id)
+			if !seen[rl] {
+				seen[rl] = true
+				all = append(all, rl)
+			}
+		}
+	}
+	bad := 0
+	for _, bc := range []BuildConfig{defaultConfig, {GOOS: "linux", GOARCH: "386"}} {
+		rules := all
+		if bc != defaultConfig {
+			rules = nil
+			for _, rl := range all {
+				if widthSensitive[rl] {
+					rules = append(rules, rl)
+				}
+			}
+		}
+		prog, err := Load(*flagRepo, bc, nil)
+		if err != nil {
+			fmt.Printf("LOAD-ERROR %s: %v\n", bc, err)
+			return 1
+		}
+		run := runRules(prog, rules)
+		for _, o := range run.Obs {
+			if o.Status == stOK || o.Status == stInfo {
+				continue
+			}
+			rule := strings.TrimSuffix(strings.TrimPrefix(o.Rule, "rule:"), "/instance-floor")
+			isKnown := false
+			for _, id := range users[rule] {
+				if known.match(id, o) != nil {
+					isKnown = true
+				}
+			}
+			tag := strings.ToUpper(o.Status)
+			if isKnown {
+				tag = "KNOWN"
+			} else {
+				bad++
+			}
+			fmt.Printf("%s %s [%s] %s %s: %s\n", tag, strings.Join(users[rule], ","), o.Rule, o.Pos, o.Construct, firstLineN(o.Detail, 260))
+		}
+	}
+	fmt.Printf("SCAN: %d not discharged\n", bad)
+	if bad > 0 {
+		return 1
+	}
+	return 0
+}
+
+func firstLineN(s string, n int) string {
+	if i := strings.IndexByte(s, '\n'); i >= 0 {
+		s = s[:i]
+	}
+	if len(s) > n {
+		s = s[:n]
+	}
+	return s
 }
